@@ -679,13 +679,18 @@ func excluded(r *rand.Rand, i int) In {
 		} else {
 			s.Mounts = []MountJ{genMount(r, "/a"), genMount(r, "/a")}
 		}
-		a.Mounts = append(a.Mounts, MountJ{Destination: "-" + s.Mounts[0].Destination, Options: []string{}})
+		// the removal goes first: set-then-remove orders are exercised (and judged) in the random stream
+		a.Mounts = append([]MountJ{{Destination: "-" + s.Mounts[0].Destination, Options: []string{}}}, a.Mounts...)
 	case 4: // duplicate device paths in the original
 		s.Devices = append(s.Devices, genDevice(r, "/dev/a"), genDevice(r, "/dev/a"))
 		if a.Linux == nil {
 			a.Linux = &LinuxJ{Devices: []DeviceJ{}}
 		}
-		a.Linux.Devices = append(a.Linux.Devices, DeviceJ{Path: pick(r, []string{"-/dev/a", "/dev/a"})})
+		if r.Intn(2) == 0 {
+			a.Linux.Devices = append([]DeviceJ{{Path: "-/dev/a"}}, a.Linux.Devices...)
+		} else {
+			a.Linux.Devices = append(a.Linux.Devices, genDevice(r, "/dev/a"))
+		}
 	case 5: // bare UpdateArgs marker
 		a.Args = []string{""}
 	case 6: // the pathological pair of DESIGN §6 #11
